@@ -1,4 +1,5 @@
 import Taskpool.Props.C07
+import Taskpool.Inv.GoodInv
 /-! # C04 — apply/start run exactly the requested invocations
 
 The spawner loop of `apply`/`start` (`_apply_spawner`, `_start_num`): progress accounting for every `num`, every
@@ -93,6 +94,32 @@ theorem C04_done_means_all (m num : Nat) (p : Pool) (r : Req) (h : p.reqs[m]? = 
   | done h1 _ _ => omega
   | waiting hw => rw [hd] at hw; cases hw
   | failed e he => rw [hok] at he; cases he
+
+/-- **exactly the requested invocations, for every history.** In every pool of every reachable world (any sizes,
+resizes, competing requests, waits for room, `lock()`, `gather_and_close()`, cancellations, failures, user code), for
+every `apply`/`start` request: the tasks that name it are exactly the `created` ones, and
+`tasks created + invocations skipped (the call raised) + invocations still to start = the number requested` — no
+invocation is lost or duplicated while the spawner lives, and never more than `num` tasks exist. -/
+theorem C04_exact_invocations (base : Nat) (h : History) (i : Nat) (c : Cfg) (p : Pool)
+    (hc : ((World.init base).run h).cfgs[i]? = some c) (hp : ((World.init base).run h).pools[i]? = some p)
+    (m : Nat) (r : Req) (hr : p.reqs[m]? = some r) (hk : r.kind = .apply) :
+    tasksOf p.tasks m = r.created ∧ r.created + r.skipped + r.remaining = r.n0 ∧ tasksOf p.tasks m + r.skipped ≤ r.n0 := by
+  have ha := accAll base h i c p hc hp
+  have h1 := ha.tk m r hr
+  have h2 := ((ha.rq m r hr).1 hk).1
+  have h2' : ((r.created + r.skipped + r.remaining : Nat) : Int) = r.n0 + 0 := h2
+  exact ⟨h1, by omega, by omega⟩
+
+/-- the number requested is what the call was given: `apply(num)` / `start(num)` register a request with
+`n0 = remaining = num` -/
+theorem C04_requested_is_num (stars : Nat) (g : String) (sp : SpawnSpec) (num nc : Nat) :
+    (newReq .apply stars g sp num [] nc).n0 = num ∧ (newReq .apply stars g sp num [] nc).remaining = num := ⟨rfl, rfl⟩
+
+/-- every task belongs to an existing request of its pool -/
+theorem C04_task_has_request (base : Nat) (h : History) (i : Nat) (c : Cfg) (p : Pool)
+    (hc : ((World.init base).run h).cfgs[i]? = some c) (hp : ((World.init base).run h).pools[i]? = some p)
+    (t : Nat) (tk : PTask) (ht : p.tasks[t]? = some tk) : tk.req < p.reqs.length :=
+  (accAll base h i c p hc hp).ref t tk ht
 
 /-! Non-vacuity: `apply num=3` on a size-1 pool: one task created, the spawner waits with 2 remaining. -/
 example : ((applyLoop 0 3 ((Pool.init (.fin 1) none).doApply 3 none gatedSpec).1).reqs.map fun r =>
